@@ -100,6 +100,7 @@ def history(r, M, thorough):
 
 def correspondence(ctx):
     r = ctx.rng
+    pipeline.run_corpus(ctx, "C13", ["C13"])
     thorough = ctx.tier == "thorough"
     scripts = []
     for _ in range(600 if thorough else 40):
